@@ -73,6 +73,13 @@ pub fn deploy_scenario(ctx: &mut RunCtx, sc: &Scenario, env: &EnvCfg) -> Result<
         Err(_) => return Ok(None),
     };
     ctx.st.steps += 1;
+    // I-sigma: the compiled permutation encodes exactly the layout's copy constraints
+    if compiled.selectors.len() <= 512 {
+        ctx.st.probe("compiled_permutation_checked_against_wiring");
+        if let Err(e) = rm_rows::check_sigma(&prover.to_bytes(), &compiled) {
+            return Err(Violation::new("I-sigma", format!("the compiled keys do not respect the layout's copy constraints: {}", e)));
+        }
+    }
     let n_witnesses = compiled.witnesses.len();
     Ok(Some(Deployment { prover, node: VerifierNode::new(verifier)?, compiled, n_witnesses }))
 }
